@@ -43,7 +43,17 @@ def gen_arb(rng, tier):
             intrs[k]["features"].append("lock")
         intrs[k]["behaviour"] = "parker"
         case["cycles"] = rng.choice([900, 1500])
-    elif x < 0.12:
+    elif x < 0.2 and n >= 2:
+        # the same interface object registered twice (it gets two turns per rotation); only objects without a STALL
+        # input are duplicated (with STALL the unchanged arbiter drives the later slot's placeholder, which is outside
+        # what C08 states for distinct initiators)
+        cand = [k for k in range(n) if "stall" not in intrs[k]["features"]]
+        if cand:
+            case["scenario"] = "duplicate_slot"
+            k = rng.choice(cand)
+            pos = rng.randint(k + 1, n)
+            case["slots"] = list(range(pos)) + [k] + list(range(pos, n))
+    elif x < 0.26:
         # the target leaves strobes unanswered for hundreds of cycles (wait states)
         case["scenario"] = "slow_target"
         intrs[rng.randrange(n)]["behaviour"] = "patient"
@@ -76,9 +86,19 @@ def run_arb_case(case, judged):
     arb = wishbone.Arbiter(addr_width=aw, data_width=dw, granularity=gran, features=afeat)
     intrs = []
     rejected = []
-    for i, d in enumerate(case["intrs"]):
+    slots = case.get("slots") or list(range(n))
+    objs = {}
+    for pos_, i in enumerate(slots):
+        d = case["intrs"][i]
+        if i in objs:
+            try:
+                arb.add(objs[i])                 # the same interface object again: a second slot for it
+            except ValueError:
+                slots = [s_ for k_, s_ in enumerate(slots) if k_ != pos_]      # refusing a duplicate is fine too
+            continue
         ib = wishbone.Interface(addr_width=aw, data_width=dw, granularity=d["gran"], features=set(d["features"]),
                                 path=(f"i{i}",))
+        objs[i] = ib
         if rng.random() < 0.15:
             # an incompatible initiator is refused; the arbiter keeps being used afterwards and the refused
             # interface stays alive in the design, driving its own request lines
@@ -265,24 +285,34 @@ def run_arb_case(case, judged):
                           lambda: f"initiator {i} (not owner; owner is {o}) sees {gotr}, expected {exp}")
             # ---- ownership transitions
             busy = int(ro["cyc"] and ((ro.get("lock", 0) or ro["stb"]) if has_lock else 1))
+            ns = len(slots)
             if st["owner"] is None:
-                check("owner_identified", o == 0, lambda: f"initial owner is {o}, expected initiator 0")
+                check("owner_identified", o == slots[0], lambda: f"initial owner is {o}, expected initiator {slots[0]}")
+                st["possible"] = {0}
             else:
                 po, pbusy, pmask = st["owner"], st["busy"], st["mask"]
+                # the grant is a slot; with an interface registered twice the slot is tracked as a set of candidates
+                expected = set()
+                for s_ in st["possible"]:
+                    nxt = s_
+                    if not pbusy:
+                        for d in range(1, ns):
+                            j = (s_ + d) % ns
+                            if (pmask >> slots[j]) & 1:
+                                nxt = j
+                                break
+                    expected.add(nxt)
+                exp_objs = sorted({slots[s_] for s_ in expected})
                 if pbusy:
                     check("no_preemption", o == po,
                           lambda: f"owner changed {po}->{o} while {po}'s bus cycle was in progress")
                 else:
-                    nxt = po
-                    for d in range(1, n):
-                        j = (po + d) % n
-                        if (pmask >> j) & 1:
-                            nxt = j
-                            break
-                    check("next_owner", o == nxt,
-                          lambda: f"bus free, owner {po}, requests {pmask:#b}: next owner {o}, round-robin says {nxt}")
+                    check("next_owner", o in exp_objs,
+                          lambda: f"bus free, owner {po} (slot candidates {sorted(st['possible'])} of {slots}), requests "
+                                  f"{pmask:#b}: next owner {o}, round-robin says {exp_objs}")
                     st["released_transitions"] += 1
-                if n <= 5:
+                st["possible"] = {s_ for s_ in expected if slots[s_] == o} or {s_ for s_ in range(ns) if slots[s_] == o}
+                if n <= 5 and ns == n:
                     trans.add((n, po, pmask, pbusy, o))
                 if o != po:
                     st["changes"] += 1
@@ -296,7 +326,7 @@ def run_arb_case(case, judged):
                 else:
                     if st["waiting"][i] is None:
                         st["waiting"][i] = 0
-                    check("bounded_wait", st["waiting"][i] <= n - 1,
+                    check("bounded_wait", st["waiting"][i] <= len(slots) - 1,
                           lambda: f"initiator {i} has requested continuously while {st['waiting'][i]} other grants happened")
             mon.bin(f"state:n{n}", (o, mask, busy))
             st["owner"], st["busy"], st["mask"] = o, busy, mask
